@@ -281,6 +281,23 @@ type pubRec struct {
 	scalar *Term
 }
 
+type dhRec struct {
+	scalar, point, res *Term
+}
+
+// dhInjective: for a fixed scalar, X25519 is injective in the (masked, canonical) u-coordinate: equal outputs
+// imply equal points. (The 19 non-canonical encodings u >= 2^255-19 are outside the claim.)
+func (p *Path) dhInjective(s, pt, res *Term) {
+	for _, d := range p.dhs {
+		if d.point == pt && d.scalar == s {
+			continue
+		}
+		same := p.tt.BAnd(p.tt.Eq(d.scalar, s), p.tt.Eq(d.res, res))
+		p.assertPC(p.tt.BOr(p.tt.Not(same), p.tt.Eq(d.point, pt)))
+	}
+	p.dhs = append(p.dhs, dhRec{s, pt, res})
+}
+
 // x25519 models curve25519.X25519(scalar, point): returns 32 result bytes and an optional low-order error condition.
 func (p *Path) x25519(scalar, point []value) ([]value, *Term) {
 	if allConc(scalar, point) {
@@ -329,12 +346,14 @@ func (p *Path) x25519(scalar, point []value) ([]value, *Term) {
 				a, b = b, a
 			}
 			sh := p.tt.Zext(p.tt.Apply("x25519_shared", 255, a, b), 256)
+			p.dhInjective(sT, p.bytesTerm(pm), sh)
 			return p.termBytes(sh, 32), p.tt.fls
 		}
 	}
 	pT := p.bytesTerm(pm)
 	r := p.tt.Zext(p.tt.Apply("x25519", 255, sT, pT), 256)
 	low := p.tt.Apply("x25519_loworder", 0, pT)
+	p.dhInjective(sT, pT, r)
 	return p.termBytes(r, 32), low
 }
 
